@@ -348,6 +348,33 @@ pub fn desugar(rw: &mut Rw, e: &Expr) -> Option<Expr> {
         Expr::MethodCall(mc) => {
             let m = mc.method.to_string();
             match m.as_str() {
+                // R-HASHMAP.find_eq: `M.iter().find(|&p| p.0 == &K)` on a map is a look-up by key; ONLY this exact closure
+                // shape is rewritten (to `M.find_by_key(&K)`, a stub specified over the abstract map); any other predicate is
+                // left alone and is then outside the supported subset (exit 2)
+                "find" if mc.args.len() == 1 && rw.opts.extra.contains_key("hashmap_find_eq") => {
+                    if let (Expr::MethodCall(it), Expr::Closure(cl)) = (&*mc.receiver, &mc.args[0]) {
+                        if it.method == "iter" && it.args.is_empty() && cl.inputs.len() == 1 {
+                            let pname = match &cl.inputs[0] {
+                                Pat::Reference(r) => match &*r.pat { Pat::Ident(i) => Some(i.ident.to_string()), _ => None },
+                                Pat::Ident(i) => Some(i.ident.to_string()),
+                                _ => None,
+                            };
+                            if let (Some(pn), Expr::Binary(b)) = (pname, strip_paren(&cl.body)) {
+                                if matches!(b.op, syn::BinOp::Eq(_)) {
+                                    let is_key = |x: &Expr| ts_str(x) == format!("{}.0", pn);
+                                    let other = if is_key(&b.left) { Some(&b.right) } else if is_key(&b.right) { Some(&b.left) } else { None };
+                                    if let Some(Expr::Reference(k)) = other.map(|o| strip_paren(o)) {
+                                        let recv = &it.receiver;
+                                        let key = &k.expr;
+                                        rw.fire("R-HASHMAP.find_eq");
+                                        return Some(parse_quote!(#recv.find_by_key(&#key)));
+                                    }
+                                }
+                            }
+                        }
+                    }
+                    return None;
+                }
                 "all" | "any" | "position" if mc.args.len() == 1 => {
                     let cl = match &mc.args[0] {
                         Expr::Closure(c) => c.clone(),
